@@ -531,5 +531,16 @@ def finding_key(cex):
     return f"C02:{cex['obligation'].split('[')[0].split('#')[0]}:n_b={s['n_b']}"
 
 
+DEFERRED_ERRORS = []
+
+
 def selftest(seed):
-    return sparse_selftest(seed, rounds=6)
+    from harness.geom import direction_contract
+    del DEFERRED_ERRORS[:]
+    n = sparse_selftest(seed, rounds=6)
+    try:
+        n += direction_contract()
+    except Exception:  # noqa: BLE001
+        import traceback
+        DEFERRED_ERRORS.append("contract of the direction grid's compiled geometry broken on a small real grid (DirStub assumes it):\n" + traceback.format_exc()[-1500:])
+    return n
